@@ -92,4 +92,17 @@ CHECKS["C05"] = dict(
          "raises; returned values outside the set the greedy reference admits (later statement first, inline over class-level, guarded soft "
          "= implication). Where the property leaves the order unspecified (softs of different class blocks) every block order is accepted.",
     design_ref="DESIGN.md section 3, C05", note=_SOLVER_NOTE)
+
+CHECKS["C14"] = dict(
+    level="exploration",
+    technique="runtime monitors: hook invariant (inferred range list contains the projection of the enumerated solution set, checked on the bound map the call really uses) + choice-point injection into RandState (complete enumeration of the real randomize() gives exact per-value probabilities)",
+    text="Programs biased to the shapes that drive the range propagators (statement-level relational and in constraints against literals, "
+         "non-random fields, expressions mixing random and non-random fields, chains between random fields, several disjoint / overlapping / "
+         "unsorted ranges combined with bounds that fall inside a range, operands on either side, signed fields, enum fields, disabled "
+         "blocks, constraints under if/implies) with previous values left in the random fields. Every inferred range is compared with the "
+         "projection of the exhaustively enumerated reference solution set; a field no constraint mentions must keep its whole type. A "
+         "quarter of the cases are tiny and are enumerated completely over the choice points of the RandState: a feasible value with "
+         "probability exactly 0 is starved. The run is inconclusive unless >= 50% of the satisfiable calls had a really narrowed range.",
+    design_ref="DESIGN.md section 3, C14; section 2.3 M2/M3", note=_SOLVER_NOTE + " Exact starvation verdicts only from complete choice "
+    "enumerations (<= 6000 paths quick); known findings F8, F17, F24r are genuine C14 defects classified by mechanism.")
 NOT_YET = {}
